@@ -18,6 +18,8 @@ GEN = {
     "large:verylong": lambda rng: wc.gen_large(rng, "verylong"),
     "large:bigNW": lambda rng: wc.gen_large(rng, "bigNW"),
     "large:manyrounds": lambda rng: wc.gen_large(rng, "manyrounds"),
+    "large:doublerepop": lambda rng: wc.gen_large(rng, "doublerepop"),
+    "large:slowdrift": lambda rng: wc.gen_large(rng, "slowdrift"),
     "joint:joint": lambda rng: wc.gen_joint(rng, "joint"),
     "joint:general": lambda rng: wc.gen_joint(rng, "general"),
     "joint:empty_final": lambda rng: wc.gen_joint(rng, "empty_final"),
@@ -63,6 +65,11 @@ def plan_e2e(seed, tag, mix, total, shards=None, extra=None, timeout=None, nwcap
     # (behaviour that sets in only after many rounds), whatever the random mix drew
     specs.append(dict(name="e2e-manyrounds", mode="interp", what="e2e", mix={"large:manyrounds": 1.0}, n=3 if total < 600 else 12,
                       seed=[seed, tag, 7777], nwcap=nwcap))
+    specs.append(dict(name="e2e-slowdrift", mode="interp", what="e2e", mix={"large:slowdrift": 1.0}, n=1 if total < 600 else 4,
+                      seed=[seed, tag, 9999], nwcap=nwcap))
+    # ... and of runs in which two clusters are refilled in one round from two different donors that the relabelling before left alone
+    specs.append(dict(name="e2e-doublerepop", mode="interp", what="e2e", mix={"large:doublerepop": 1.0}, n=4 if total < 600 else 16,
+                      seed=[seed, tag, 8888], nwcap=nwcap))
     return specs + list(extra or [])
 
 
